@@ -11,7 +11,7 @@
     reclamation of stale debris: crash-point enumeration (vlib/c02.py). *)
 From Coq Require Import List NArith ZArith String Bool.
 Import ListNotations.
-From Kismet Require Import Pure.Hash FS.Fs FS.Prog Ops.Ops Ops.Client Spec.ClassMon Spec.Calm Conc.Pool Conc.Effect Conc.Immut Proofs.PoolLift Proofs.DebrisInTemp Seq.Plain Proofs.KvSeq.
+From Kismet Require Import Pure.Hash FS.Fs FS.Prog Ops.Ops Ops.Client Spec.ClassMon Spec.Calm Conc.Pool Conc.Effect Conc.Immut Proofs.PoolLift Proofs.DebrisInTemp Seq.Plain Proofs.KvSeq Proofs.KvTemp.
 (** A crash before the n-th call executes exactly the calls before it: the
     crashed run's trace is a prefix of the full run's trace. *)
 Theorem C02_crash_before_first_call : forall A (p : prog A) c k w o,
@@ -43,6 +43,17 @@ Theorem C02_publication_is_atomic_at_every_crash_point : forall d name v i0 j0 (
   name_of (w_fs w') (cd_base d ++ [name]) = j0 \/ name_of (w_fs w') (cd_base d ++ [name]) = None \/
   name_of (w_fs w') (cd_base d ++ [name]) = Some i0.
 Proof. intros d name v i0 j0 which w o n Hb Hn Hv Ho Ha. exact (crash_anywhere_is_atomic d name v Hb Hn Hv Ho Ha i0 j0 which w o n). Qed.
+
+(** The same for ANY plain source path, in particular a temporary file inside the
+    cache's own [.kismet_temp] (what the temp-file API and the populate paths publish). *)
+Theorem C02_publication_from_any_source_is_atomic : forall d name v (which : bool) i0 j0 w o n,
+  plainp (cd_base d) = true -> valid_name name = true -> plainp v = true ->
+  v <> cd_base d ++ [name] -> (forall q, cd_base d <> v ++ q) ->
+  names_plain (w_fs w) -> name_of (w_fs w) v = Some i0 -> name_of (w_fs w) (cd_base d ++ [name]) = j0 ->
+  let '(w', _, _, _) := run_crash (cd_publish (if which then insert_or_update else insert_or_touch) d name v) w o n in
+  name_of (w_fs w') (cd_base d ++ [name]) = j0 \/ name_of (w_fs w') (cd_base d ++ [name]) = None \/
+  name_of (w_fs w') (cd_base d ++ [name]) = Some i0.
+Proof. intros d name v which i0 j0 w o n Hb Hn Hv Hvd Ha. exact (publish_is_atomic d name v which Hb Hn Hv Hvd Ha i0 j0 w o n). Qed.
 
 (** Whatever a participant has created when it stops - at ANY point of ANY
     schedule, crashed, frozen or finished - was created inside a directory named
